@@ -1286,6 +1286,36 @@ def fuzz_all(ctx, corpus, garbage, dns_pkts, fuzztime):
     return found
 
 
+CORPUS_DIR = os.path.join(lib.VERIF, "corpus", "C11")
+CORPUS_CAP = 400          # per fuzz target
+
+
+def load_corpus(limit):
+    """{target: [value list]} from corpus/C11/fuzz_<target>.json (bytes are stored as {"b": hex})"""
+    import json
+    out = {spec[0]: [] for spec in FUZZERS}
+    for name in out:
+        path = os.path.join(CORPUS_DIR, "fuzz_%s.json" % name)
+        if os.path.exists(path):
+            try:
+                with open(path) as f:
+                    for vals in json.load(f)[:limit]:
+                        out[name].append([bytes.fromhex(v["b"]) if isinstance(v, dict) else v for v in vals])
+            except (ValueError, KeyError, TypeError):
+                pass
+    return out
+
+
+def save_corpus(found):
+    import json
+    os.makedirs(CORPUS_DIR, exist_ok=True)
+    for name, vals in found.items():
+        # smallest inputs first, capped: the corpus is a regression set, not an archive
+        vals = sorted(vals, key=lambda v: (sum(len(x) for x in v if isinstance(x, bytes)), repr(v)))[:CORPUS_CAP]
+        with open(os.path.join(CORPUS_DIR, "fuzz_%s.json" % name), "w") as f:
+            json.dump([[{"b": x.hex()} if isinstance(x, bytes) else x for x in v] for v in vals], f)
+
+
 def is_utf8(b):
     try:
         b.decode("utf8")
@@ -1381,9 +1411,19 @@ def run_(ctx):
             dns_pkts.insert(0, ("replay", bytes.fromhex(inner["pkt"]), None, 0))
         elif "pkt" in c:
             dns_pkts.insert(0, ("replay", bytes.fromhex(c["pkt"]), None, 0))
+    # what earlier fuzzing runs kept (corpus/C11) is replayed first, in both tiers; the thorough tier fuzzes and adds to it
+    found = load_corpus(150 if quick else 100000)
     if not quick:
         # coverage-guided search per entry point; what the fuzzers kept is replayed below against the model
-        found = fuzz_all(ctx, corpus, garbage, dns_pkts, int(os.environ.get("VERIF_FUZZTIME", "180")))
+        fresh = fuzz_all(ctx, corpus, garbage, dns_pkts, int(os.environ.get("VERIF_FUZZTIME", "180")))
+        for k, vals in fresh.items():
+            found.setdefault(k, [])
+            have = {repr(v) for v in found[k]}
+            found[k] += [v for v in vals if repr(v) not in have]
+        if os.environ.get("VERIF_C11_NO_CORPUS_WRITE") != "1":
+            save_corpus(found)
+    ctx.cov["corpus_replayed"] = {k: len(v) for k, v in found.items()}
+    if True:
         for v in found["ingest"]:
             if len(v) == 2 and isinstance(v[0], bytes):
                 st_cases.append({"op": "ingest", "msg": v[0].hex(), "v4": bool(v[1] & 1), "v6": bool(v[1] & 2), "geofail": bool(v[1] & 4)})
